@@ -11,8 +11,8 @@ Proof. unfold lg_mean_update, mean_step. cbn [fst snd]. split; [unfold Qdiv; rin
 Lemma frag_is_excluded st k fmt :
   is_excluded st k fmt =
   match get_kv k (l_exc st) with
-  | Some ex => lg_is_excluded true true (mem_text fmt ex)
-  | None => lg_is_excluded false true false
+  | Some ex => lg_is_excluded true true (mem_text fmt ex) false false (negb (mem_text fmt ex))
+  | None => lg_is_excluded false true false true false true
   end.
 Proof. unfold is_excluded, lg_is_excluded. destruct (get_kv k (l_exc st)); [destruct (mem_text fmt l)|]; reflexivity. Qed.
 
@@ -182,3 +182,69 @@ Proof.
 Qed.
 Lemma truncate_short m s : (List.length s <= m)%nat -> truncate m s = s.
 Proof. intros H. unfold truncate. replace (Nat.ltb m (List.length s)) with false; [reflexivity|]. symmetry. apply Nat.ltb_ge. exact H. Qed.
+
+(* ---------- review item: record_mean interleaved with operations on other keys ---------- *)
+Lemma other_key_keeps st k k2 v e : text_eqb k k2 = false ->
+  value_of (l_record st k2 v e) k = value_of st k /\ count_of (l_record st k2 v e) k = count_of st k.
+Proof.
+  intros E. assert (Hne : k2 <> k) by (intros ->; rewrite text_eqb_refl in E; discriminate).
+  unfold value_of, count_of, l_record. cbn [l_val l_cnt]. rewrite get_set_other by exact Hne. split; reflexivity.
+Qed.
+
+Lemma other_key_mean_keeps st k k2 x e : text_eqb k k2 = false ->
+  value_of (l_record_mean st k2 x e) k = value_of st k /\ count_of (l_record_mean st k2 x e) k = count_of st k.
+Proof.
+  intros E. assert (Hne : k2 <> k) by (intros ->; rewrite text_eqb_refl in E; discriminate).
+  destruct x as [x|]; [|split; reflexivity].
+  unfold value_of, count_of, l_record_mean. cbn [l_val l_cnt]. rewrite !get_set_other by exact Hne. split; reflexivity.
+Qed.
+
+Lemma mean_interleaved_inv k ops : forall st S,
+  forallb (mean_safe k) ops = true ->
+  (0 <= count_of st k)%Z -> value_of st k * inject_Z (count_of st k) == S ->
+  let st' := fst (l_run st ops) in
+  value_of st' k * inject_Z (count_of st' k) == S + lsum (mean_values k ops) /\
+  count_of st' k = (count_of st k + Z.of_nat (List.length (mean_values k ops)))%Z.
+Proof.
+  induction ops as [|o ops IH]; intros st S Hs Hc HS; cbn [l_run fst mean_values lsum List.length].
+  - split; [rewrite HS; ring|lia].
+  - cbn [forallb] in Hs. apply andb_true_iff in Hs as [Ho Hs].
+    destruct o as [k2 v e|k2 [x|] e|]; cbn [mean_safe] in Ho; try discriminate.
+    + apply negb_true_iff in Ho. destruct (other_key_keeps st k k2 v e Ho) as [Ev Ec].
+      cbn [l_run]. destruct (IH (l_record st k2 v e) S Hs) as [I1 I2]; [rewrite Ec; exact Hc|rewrite Ev, Ec; exact HS|].
+      cbn zeta in *. split; [exact I1|rewrite I2, Ec; reflexivity].
+    + cbn [l_run]. destruct (text_eqb k k2) eqn:E.
+      * apply text_eqb_eq in E. subst k2. destruct (record_mean_step st k x e) as [Hv Hn].
+        specialize (IH (l_record_mean st k (Some x) e) (S + x) Hs). cbn zeta in IH. destruct IH as [I1 I2].
+        -- rewrite Hn. lia.
+        -- rewrite Hv, Hn, mean_step_sum by exact Hc. rewrite HS. reflexivity.
+        -- cbn [lsum List.length]. split; [rewrite I1; ring|]. rewrite I2, Hn. lia.
+      * destruct (other_key_mean_keeps st k k2 (Some x) e E) as [Ev Ec].
+        destruct (IH (l_record_mean st k2 (Some x) e) S Hs) as [I1 I2]; [rewrite Ec; exact Hc|rewrite Ev, Ec; exact HS|].
+        cbn zeta in *. split; [exact I1|rewrite I2, Ec; reflexivity].
+    + cbn [l_run]. apply IH; assumption.
+Qed.
+
+(* any interleaving of record / record_mean on other keys and record_mean(None): the pending value of k is the arithmetic
+   mean of the values given for k since the last dump *)
+Lemma record_mean_interleaved st k ops :
+  count_of st k = 0%Z -> forallb (mean_safe k) ops = true -> mean_values k ops <> [] ->
+  value_of (fst (l_run st ops)) k == lsum (mean_values k ops) / inject_Z (Z.of_nat (List.length (mean_values k ops))).
+Proof.
+  intros Hc Hs Hne. destruct (mean_interleaved_inv k ops st 0 Hs) as [H1 H2]; [lia|rewrite Hc; ring|].
+  cbn zeta in *. rewrite Hc in H2. cbn [Z.add] in H2. rewrite H2 in H1.
+  assert (Hp : ~ inject_Z (Z.of_nat (List.length (mean_values k ops))) == 0).
+  { intros E. destruct (mean_values k ops); [congruence|]. cbn [List.length] in E.
+    assert (H : (0 < Z.of_nat (S (List.length l)))%Z) by lia. rewrite Zlt_Qlt in H. rewrite E in H. discriminate. }
+  rewrite Qplus_0_l in H1. rewrite <- H1. field. exact Hp.
+Qed.
+
+(* the value handed to the writers at the next dump is that mean (for the formats k is not excluded from) *)
+Lemma mean_reaches_dump st k q :
+  get_kv k (l_val st) = Some (LNum q) -> In (k, LNum q) (d_pending (snd (l_dump st))).
+Proof.
+  cbn. generalize (l_val st). induction l as [|[k' v] l IH]; cbn [get_kv]; [discriminate|].
+  destruct (text_eqb k k') eqn:E; intros H.
+  - apply text_eqb_eq in E. inversion H; subst. now left.
+  - right. now apply IH.
+Qed.
